@@ -80,6 +80,17 @@ template <typename R> void int_powers() {
         R x = (R)v;
         n += ipow_case<0>(x, mism) + ipow_case<1>(x, mism) + ipow_case<2>(x, mism) + ipow_case<3>(x, mism) + ipow_case<4>(x, mism);
     }
+    // roots of integral quantities: exactly the std function on the stored value, in the std function's result type
+    {
+        R pts[] = {0, 1, 2, 3, 4, 7, 8, 9, 27, 64, 100, 121, 125, 126, (R)(std::numeric_limits<R>::max()), (R)(std::numeric_limits<R>::max() - 1), (R)(std::numeric_limits<R>::max() / 2), (R)(std::numeric_limits<R>::max() / 3)};
+        for (R x : pts) {
+            ++n;
+            auto s = sqrt(squared(meters)(x)); auto c = cbrt(cubed(meters)(x));
+            bool ok = std::is_same<typename decltype(s)::Rep, decltype(std::sqrt(x))>::value && std::is_same<typename decltype(c)::Rep, decltype(std::cbrt(x))>::value &&
+                      sb(val(s), std::sqrt(x)) && sb(val(c), std::cbrt(x)) && std::is_same<typename decltype(s)::Unit, Meters>::value && std::is_same<typename decltype(c)::Unit, Meters>::value;
+            if (!ok) { ++mism; std::printf("{\"k\":\"pmis\",\"what\":\"sqrt/cbrt of an integral quantity\",\"R\":\"%s\",\"x\":%s,\"res\":%s}\n", rep_name<R>(), wire((i128)x).c_str(), wire((i128)0).c_str()); }
+        }
+    }
     std::printf("{\"k\":\"psum\",\"what\":\"int_powers\",\"R\":\"%s\",\"n\":%lld,\"mismatches\":%lld}\n", rep_name<R>(), n, mism);
 }
 // int_pow<E> on a floating rep for every exponent of the property's range and a few beyond: the exact power to a few ulps
